@@ -103,6 +103,8 @@ ByteString OSSL::pt2ByteString(const EC_POINT* pt, const EC_GROUP* grp)
 // Convert a ByteString to an OpenSSL EC POINT in the given EC GROUP
 EC_POINT* OSSL::byteString2pt(const ByteString& byteString, const EC_GROUP* grp)
 {
+	if (grp == NULL) return NULL;
+
 	ByteString raw = DERUTIL::octet2Raw(byteString);
 	size_t len = raw.size();
 	if (len == 0) return NULL;
